@@ -41,7 +41,7 @@ Disagreement(a, r) ==
   \* which error is named is not compared; runs of `released` events come out of a hash set: compared as sets
   (IF NonRel(NoErrNames(a.out)) # NonRel(NoErrNames(r.out)) \/ RelSet(a.out) # RelSet(r.out) \/ Len(RelSeq(a.out)) # Len(RelSeq(r.out))
    THEN {"out"} ELSE {})
-  \cup (IF a.call.ok # r.call.ok \/ a.call.id # r.call.id THEN {"ret"} ELSE {})
+  \cup (IF a.call.ok # r.call.ok \/ a.call.id # r.call.id \/ (r.call.op = "regulate" /\ a.call.pkts # r.call.pkts) THEN {"ret"} ELSE {})
   \cup (IF o.vacancy # r.obs.vacancy THEN {"obs.vacancy"} ELSE {})
   \cup (IF o.stored # r.obs.stored THEN {"obs.stored"} ELSE {})
   \cup (IF o.qos2 # r.obs.qos2 THEN {"obs.qos2"} ELSE {})
